@@ -41,9 +41,9 @@ func init() {
 		"vOr": func(m *machine, fr *frame, args []value) value {
 			return fromTerm(mkOr(toTerm(args[0]), toTerm(args[1])))
 		},
-		"vWritten":  hWritten,
-		"vEvent":    hEvent,
-		"vExit":     func(m *machine, fr *frame, args []value) value { panic(exitPanic{args[0]}) },
+		"vWritten": hWritten,
+		"vEvent":   hEvent,
+		"vExit":    func(m *machine, fr *frame, args []value) value { panic(exitPanic{args[0]}) },
 	}
 }
 
@@ -86,13 +86,29 @@ func hInt(m *machine, fr *frame, args []value) value {
 		m.inputs[name].Lo, m.inputs[name].Hi = lo, hi
 		m.addPC(rawApp("<=", SBool, mkInt(lo), t))
 		m.addPC(rawApp("<=", SBool, t, mkInt(hi)))
+		if hi >= lo && uint64(hi)-uint64(lo) < 16 {
+			// small domains are enumerated (one explored alternative per value)
+			m.smallVars[name] = m.inputs[name]
+			m.concretizeIn(t)
+		}
+	}
+	if c, ok := m.concrete[name]; ok {
+		return fromTerm(c)
 	}
 	return t
 }
 
 func hBool(m *machine, fr *frame, args []value) value {
 	name := concreteStr(args[0], "vBool name")
-	return m.input(name, "bool", func() *Term { return mkVar(name, SBool) })
+	t := m.input(name, "bool", func() *Term { return mkVar(name, SBool) })
+	if _, done := m.smallVars[name]; !done {
+		m.smallVars[name] = m.inputs[name]
+		m.concretizeIn(t)
+	}
+	if c, ok := m.concrete[name]; ok {
+		return fromTerm(c)
+	}
+	return t
 }
 
 func hFloat(m *machine, fr *frame, args []value) value {
